@@ -109,6 +109,7 @@ type ReplayFile struct {
 	Seed      uint64     `json:"seed"`
 	Run       int        `json:"run"`
 	Variant   string     `json:"variant"`
+	From      *int       `json:"from,omitempty"` // sequence replay: seeded runs From..Run in one process
 	Trace     []int      `json:"trace"`
 	Violation *Violation `json:"violation"`
 	Events    []string   `json:"events,omitempty"`
@@ -128,6 +129,7 @@ type Finding struct {
 
 type failure struct {
 	variant Variant
+	from    int // first run index of the worker process that produced it
 	run     int
 	viol    *Violation
 	trace   []int
@@ -727,7 +729,7 @@ func check(id, tier string, runsOverride, secsOverride int) int {
 						mu.Lock()
 						agg.add(j.v, rr)
 						if rr.Viol != nil {
-							fails = append(fails, failure{variant: j.v, run: rr.Run, viol: rr.Viol, trace: rr.Trace})
+							fails = append(fails, failure{variant: j.v, from: j.from, run: rr.Run, viol: rr.Viol, trace: rr.Trace})
 						}
 						mu.Unlock()
 					},
@@ -737,7 +739,7 @@ func check(id, tier string, runsOverride, secsOverride int) int {
 						if cv, ok := crashViolation(stderr, exit); ok {
 							agg.evals++
 							agg.perVariant[j.v.Name]++
-							fails = append(fails, failure{variant: j.v, run: run, viol: cv, crashed: true, stderr: stderr})
+							fails = append(fails, failure{variant: j.v, from: j.from, run: run, viol: cv, crashed: true, stderr: stderr})
 						} else {
 							agg.harnessErrs = append(agg.harnessErrs, fmt.Sprintf("worker %s died at run %d (exit %d): %s", j.v.Name, run, exit, tail(stderr, 2000)))
 						}
@@ -804,6 +806,51 @@ func check(id, tier string, runsOverride, secsOverride int) int {
 		tries := 1
 		if f.variant.Race {
 			tries = 20
+		}
+		seqMode := false
+		if !sameClass(f.variant, &rf, cls, tries) {
+			// the run alone does not reproduce it: does the sequence of seeded runs
+			// of its worker process (state left behind by earlier runs)?
+			from := f.from
+			srf := rf
+			srf.Trace = nil
+			srf.From = &from
+			if f.run > f.from && sameClass(f.variant, &srf, cls, tries) {
+				// shortest suffix of the sequence that still fails
+				for _, back := range []int{1, 2, 4, 8, 16, 32, 64} {
+					cand := f.run - back
+					if cand <= f.from {
+						break
+					}
+					c := srf
+					c.From = &cand
+					if sameClass(f.variant, &c, cls, tries) {
+						srf = c
+						break
+					}
+				}
+				rf = srf
+				seqMode = true
+			}
+		}
+		if seqMode {
+			if rr, _, _ := replayOnce(f.variant, &rf, 300*time.Second); rr != nil && rr.Viol != nil {
+				rf.Violation = rr.Viol
+				rf.Events = rr.Events
+			}
+			rf.Note = fmt.Sprintf("SEQUENCE replay: the violation depends on process-wide state left by earlier runs; seeded runs %d..%d are executed in one fresh process. Replay with: ./check replay <this file>", *rf.From, rf.Run)
+			path := filepath.Join(verifDir, "replays", fmt.Sprintf("%s-%d-%d.json", id, seed, f.run))
+			b, _ := json.MarshalIndent(&rf, "", " ")
+			os.WriteFile(path, b, 0o644)
+			nViol++
+			if kf := matchFinding(findings, id, rf.Violation); kf != nil {
+				fmt.Printf("KNOWN-FINDING: property=%s %s (replay=%s)\n", id, kf.What, path)
+				continue
+			}
+			fmt.Printf("VIOLATION property=%s replay=%s\n", id, path)
+			fmt.Printf("  class=%s variant=%s runs=%d..%d (sequence)\n  %s\n", cls, f.variant.Name, *rf.From, rf.Run, tail(firstLines(rf.Violation.Msg, 12), 1500))
+			exit = 1
+			continue
 		}
 		if !sameClass(f.variant, &rf, cls, tries) {
 			fmt.Fprintf(os.Stderr, "UNSTABLE: run %d (%s) failed with %s but its trace does not reproduce it; treated as harness trouble\n%s\n",
